@@ -89,6 +89,9 @@ func (i *Interceptors) NewSegment(val string) (*Segment, error) {
 	}
 
 	seg.rule = val[separator+1 : end]
+	if strings.IndexByte(seg.rule, startByte) >= 0 { // 参数以第一个 } 结束，{id:\d{2}} 的规则会被截断为 \d{2，无法表达原意。
+		return nil, fmt.Errorf("参数的规则中不能包含 %c：%s", startByte, val)
+	}
 	if matcher, found := i.funcs[seg.rule]; found {
 		seg.Type = Interceptor
 		seg.Name = val[start+1 : separator]
